@@ -222,7 +222,10 @@ func expandInto(b []byte, kind int, seed uint64, p1, p2 int) {
 		copy(b, sb.Bytes())
 	case KUTF8:
 		var sb bytes.Buffer
-		nsym := 20 + p1%40000
+		nsym := 20 + p1%600 // modest alphabets (the UTF transform applies) two times out of three
+		if p1%3 == 1 {
+			nsym = 20 + p1%40000
+		}
 		bases := []rune{0x400, 0x4e00, 0x3040, 0x1F600, 0x600, 0x80, 0x10000}
 		base := bases[p2%len(bases)]
 		if p2&64 != 0 {
@@ -237,6 +240,16 @@ func expandInto(b []byte, kind int, seed uint64, p1, p2 int) {
 				c = ' '
 			} else if r.intn(40) == 0 {
 				c = '\n'
+			}
+			if p1 > 40000 && p1%2 == 1 && r.intn(400) == 0 {
+				// a code point cut short (text assembled from pieces cut in mid-sequence): lead byte and one
+				// continuation byte followed by ASCII; every byte pair is legal UTF-8, the sequence is not
+				if c >= 0x10000 {
+					sb.Write([]byte{0xF0, 0x9F, 0x98, ' '})
+				} else {
+					sb.Write([]byte{0xE2, 0x82, ' '})
+				}
+				continue
 			}
 			sb.WriteRune(c)
 		}
